@@ -34,6 +34,9 @@ import (
 type Plan struct {
 	Text [][]int `json:"text"`
 	Pool []int   `json:"pool"`
+	// A-label family of the law-only corpus: spellings of the ACE prefix and Punycode tails (code points)
+	AcePre  [][]int `json:"acepre"`
+	AceTail [][]int `json:"acetail"`
 }
 
 // Vec is one record of any of the vector files (fields by kind).
@@ -616,6 +619,36 @@ func corpus(seed int64, n int) []Vec {
 		}
 		return string(b)
 	}
+	cpstr := func(v []int) string {
+		var b []byte
+		for _, c := range v {
+			b = utf8.AppendRune(b, rune(c))
+		}
+		return string(b)
+	}
+	// a label that carries the ACE prefix in one of its spellings: a Punycode tail of the plan (as given, or with
+	// the case of its letters changed) or a random one
+	ace := func() string {
+		if len(plan.AcePre) == 0 || len(plan.AceTail) == 0 {
+			return "xn--" + pick(3)
+		}
+		lb := cpstr(plan.AcePre[rng.Intn(len(plan.AcePre))])
+		switch rng.Intn(8) {
+		case 0:
+			lb += pick(3)
+		case 1:
+			lb += strings.ToUpper(cpstr(plan.AceTail[rng.Intn(len(plan.AceTail))]))
+		default:
+			lb += cpstr(plan.AceTail[rng.Intn(len(plan.AceTail))])
+		}
+		return lb
+	}
+	label := func(max int) string {
+		if rng.Intn(4) == 0 {
+			return ace()
+		}
+		return pick(max)
+	}
 	dom := func() string {
 		switch rng.Intn(12) {
 		case 0:
@@ -625,14 +658,14 @@ func corpus(seed int64, n int) []Vec {
 		case 2:
 			return "[2001:DB8::A]"
 		case 3:
-			return "xn--" + pick(3)
+			return ace()
 		}
-		d := pick(3)
+		d := label(3)
 		if d == "" {
 			d = "a"
 		}
 		for i := rng.Intn(3); i > 0; i-- {
-			d += []string{".", ".", "。", "．", "｡", ".."}[rng.Intn(6)] + pick(2)
+			d += []string{".", ".", "。", "．", "｡", ".."}[rng.Intn(6)] + label(2)
 		}
 		return d
 	}
@@ -714,7 +747,7 @@ func envInt(name string, def int) int {
 func traceable(v *Vec) bool {
 	for _, l := range [][]int{v.S, v.L, v.D, v.R, v.P, v.BL, v.BD, v.BR} {
 		for _, s := range l {
-			if s >= 20 || s == 18 { // long runs and invalid UTF-8 are compared by expectation only
+			if (s >= 20 && s <= 22) || s == 18 { // long runs and invalid UTF-8 are compared by expectation only
 				return false
 			}
 		}
